@@ -232,6 +232,18 @@ func (w *World) enabled() []Event {
 			}
 			continue
 		}
+		if op.Kind == "Watch" && !op.Applied {
+			broken := false
+			for _, id := range s.WatchBroken {
+				if id == op.Inst {
+					broken = true
+				}
+			}
+			if broken {
+				def = append(def, Event{Name: "err:" + op.ID + ":timeout", tgt: op.Inst, run: func() { op.Fault = "err:timeout"; op.resErr = nats.ErrTimeout; w.answer(op) }})
+				continue
+			}
+		}
 		if f := s.Fault; f != nil && op.Inst == f.Inst && !op.Applied && w.opCount[f.Inst+".hb.Update"] >= f.FromN && (op.Label != "hb" || op.Kind != "Update" || opSeq(op) >= f.FromN) && (!f.WritesOnly || op.Kind != "Get") && (!f.Once || (op.Label == "hb" && op.Kind == "Update" && opSeq(op) == f.FromN)) {
 			op.Deadline = 0
 			lateFirst := f.Mode == "lateack" && op.Label == "hb" && op.Kind == "Update" && opSeq(op) == f.FromN
